@@ -32,26 +32,31 @@ type Run struct {
 	Sched   []int      // the schedule actually executed: one entry per released step
 	Enabled [][]int    // threads that could have been released at each step
 	Results [][]string // per thread, per call
+	Progs   [][]Op     // the programs as the model sees them (nested runs: one thread per call that ran)
 	Hist    []HOp
-	Final   map[int]int64
+	Final   map[int]P
+	Stamps  map[int]int64 // change time stored with each value
+	RNG     int           // rng.Read calls made
 }
 
 // runScheduled executes sc on the real code. The schedule follows prefix as long as it lasts (entries
 // naming a finished thread are skipped), then always releases the lowest unfinished thread.
 func runScheduled(ctl *k4.Controller, sc Scenario, prefix []int, choose func(enabled []int) int) *Run {
-	w := newWorld(sc)
+	w := newWorld(sc, false)
 	n := len(sc.Progs)
-	r := &Run{Results: make([][]string, n)}
+	r := &Run{Results: make([][]string, n), Progs: sc.Progs}
 	ths := make([]*k4.Thread, n)
 	cur := make([]int, n) // index of the call a thread is in (or about to start)
 	inv := make([]int64, n)
+	gen := make([]int, n) // id generated for the call a thread is in
 	for t := 0; t < n; t++ {
 		t := t
 		prog := sc.Progs[t]
 		ths[t] = ctl.Spawn(t, func(yield func(string)) {
 			for _, op := range prog {
 				yield("start")
-				res := w.exec(op)
+				gen[t] = -1
+				res := w.exec(op, &gen[t])
 				r.Results[t] = append(r.Results[t], res)
 			}
 		})
@@ -89,6 +94,7 @@ func runScheduled(ctl *k4.Controller, sc Scenario, prefix []int, choose func(ena
 			inv[pick] = step
 		}
 		before := len(r.Results[pick])
+		w.clk.n.Store(int64(len(r.Sched)) + 1) // the instant the clock shows during this step
 		st := ctl.Step(th)
 		if st == k4.Blocked {
 			panic("c02: a writer blocked without subscribers: " + th.Point)
@@ -99,21 +105,51 @@ func runScheduled(ctl *k4.Controller, sc Scenario, prefix []int, choose func(ena
 		r.Sched = append(r.Sched, pick)
 		r.Enabled = append(r.Enabled, enabled)
 		if len(r.Results[pick]) > before {
-			r.Hist = append(r.Hist, HOp{T: pick, N: cur[pick], Op: sc.Progs[pick][cur[pick]], Inv: inv[pick], Resp: step, Res: r.Results[pick][before]})
+			r.Hist = append(r.Hist, HOp{T: pick, N: cur[pick], Op: sc.Progs[pick][cur[pick]], Inv: inv[pick], Resp: step, Res: r.Results[pick][before], GenID: gen[pick]})
 			cur[pick]++
 		}
 		step++
 	}
-	r.Final = w.contents()
+	r.Final, r.Stamps = w.contents()
+	r.RNG = w.rng.n
 	return r
 }
 
-func (r *Run) canon(n int) string {
+// runNested executes Progs[0][0] with no hooks and no goroutines: its Rivals are complete calls made from
+// inside its own callbacks (which the write path runs with no lock held), i.e. between its optimistic read
+// and its write lock. For the model every call that ran is a thread of its own: rival j is thread j+1 and
+// the schedule is read(0) ▸ { rival j to completion ▸ next step of 0 }*.
+func runNested(sc Scenario) *Run {
+	w := newWorld(sc, false)
+	outer := sc.Progs[0][0]
+	gen := -1
+	var res string
+	if p, msg := lib.Catch(func() { res = w.exec(outer, &gen) }); p {
+		res = "panic:" + msg
+	}
+	resp := w.seq.Add(1)
+	plain := outer
+	plain.Rivals, plain.RivalAt = nil, ""
+	r := &Run{Progs: [][]Op{{plain}}, Results: [][]string{{res}}, Sched: []int{0}}
+	r.Hist = append(r.Hist, HOp{T: 0, N: 0, Op: plain, Inv: 0, Resp: resp, Res: res, GenID: gen})
+	for j, rv := range w.rivals {
+		r.Progs = append(r.Progs, []Op{rv.op})
+		r.Results = append(r.Results, []string{rv.res})
+		r.Hist = append(r.Hist, HOp{T: j + 1, N: 0, Op: rv.op, Inv: rv.inv, Resp: rv.resp, Res: rv.res, GenID: rv.genID})
+		r.Sched = append(r.Sched, j+1, j+1, j+1, 0)
+	}
+	r.Sched = append(r.Sched, 0, 0)
+	r.Final, r.Stamps = w.contents()
+	r.RNG = w.rng.n
+	return r
+}
+
+func (r *Run) canon() string {
 	var parts []string
-	for t := 0; t < n; t++ {
+	for t := range r.Results {
 		parts = append(parts, fmt.Sprintf("T%d=[%s]", t, strings.Join(r.Results[t], ",")))
 	}
-	return strings.Join(parts, "|") + "|store=" + showContents(r.Final)
+	return strings.Join(parts, "|") + "|store=" + showStamped(r.Final, r.Stamps)
 }
 
 // exploreAll enumerates every schedule of sc (stateless depth-first search by re-execution).
@@ -147,25 +183,53 @@ type verdict struct {
 	sig, what, expected, observed string
 }
 
-func judge(sc Scenario, hist []HOp, final map[int]int64) *verdict {
+// pureIncrement: an unconditional read-modify-write that adds to one field and leaves the other alone
+func (o Op) pureIncrement() bool {
+	if o.K == "d" || o.Gen || o.EA || o.CIA || o.Expect != nil || o.check() != "n" || len(o.F) < 2 {
+		return false
+	}
+	switch o.F[0] {
+	case 'a':
+		return o.Mask == "" || o.Mask == "a" || o.Mask == "ab"
+	case 'b':
+		return o.Mask == "" || o.Mask == "b" || o.Mask == "ab"
+	}
+	return false
+}
+
+func allCalls(progs [][]Op) []Op {
+	var ops []Op
+	for _, p := range progs {
+		for _, o := range p {
+			ops = append(ops, o)
+			ops = append(ops, o.Rivals...)
+		}
+	}
+	return ops
+}
+
+func judge(sc Scenario, hist []HOp, final map[int]P) *verdict {
 	init := sc.initMap()
 	// specific clauses first, so that signatures stay specific
 	addsOK := map[int]int{}
 	deletes := map[int]bool{}
 	pureInc := map[int]bool{}
-	sum := map[int]int64{}
-	for _, p := range sc.Progs {
-		for _, o := range p {
-			id := o.target()
-			if _, seen := pureInc[id]; !seen {
-				pureInc[id] = true
-			}
-			if !(o.K != "d" && !o.EA && !o.CIA && o.Expect == nil && (o.Check == "" || o.Check == "n") && strings.HasPrefix(o.F, "a")) {
-				pureInc[id] = false
-			}
-			if o.K == "d" {
-				deletes[id] = true
-			}
+	anyGen := false
+	sum := map[int]P{}
+	for _, o := range allCalls(sc.Progs) {
+		if o.Gen {
+			anyGen = true
+			continue
+		}
+		id := o.target()
+		if _, seen := pureInc[id]; !seen {
+			pureInc[id] = true
+		}
+		if !o.pureIncrement() {
+			pureInc[id] = false
+		}
+		if o.K == "d" {
+			deletes[id] = true
 		}
 	}
 	for _, h := range hist {
@@ -173,30 +237,45 @@ func judge(sc Scenario, hist []HOp, final map[int]int64) *verdict {
 			return &verdict{"C02/" + h.Op.K + "/panic", "a concurrent write panicked", "a result", h.Res}
 		}
 		id := h.Op.target()
+		if h.Op.Gen {
+			id = h.GenID
+		}
 		if strings.HasPrefix(h.Res, "ok:") && h.Op.K == "u" && h.Op.EA {
 			addsOK[id]++
 		}
-		if strings.HasPrefix(h.Res, "ok:") && strings.HasPrefix(h.Op.F, "a") {
+		if strings.HasPrefix(h.Res, "ok:") && h.Op.pureIncrement() {
 			k, _ := strconv.ParseInt(h.Op.F[1:], 10, 64)
-			sum[id] += k
+			p := sum[id]
+			if h.Op.F[0] == 'a' {
+				p.A += k
+			} else {
+				p.B += k
+			}
+			sum[id] = p
 		}
 	}
 	for id, c := range addsOK {
 		if c > 1 && !deletes[id] {
-			return &verdict{"C02/add/both-succeed", fmt.Sprintf("%d Adds of id %d reported success although nothing deletes it", c, id), "at most one Add of an id succeeds", fmt.Sprintf("%d successes", c)}
+			sig := "C02/add/both-succeed"
+			if id >= genBase {
+				sig = "C02/add/generated-id-shared"
+			}
+			return &verdict{sig, fmt.Sprintf("%d Adds of id %d reported success although nothing deletes it", c, id), "at most one Add of an id succeeds", fmt.Sprintf("%d successes", c)}
 		}
 	}
 	for id, pure := range pureInc {
-		if v0, present := init[id]; pure && present {
-			if final[id] != v0+sum[id] {
-				return &verdict{"C02/increment/lost", fmt.Sprintf("successful increments on id %d add up to %d but the value went from %d to %d", id, sum[id], v0, final[id]),
-					strconv.FormatInt(v0+sum[id], 10), strconv.FormatInt(final[id], 10)}
+		if v0, present := init[id]; pure && present && !(anyGen && id >= genBase) {
+			want := P{v0.A + sum[id].A, v0.B + sum[id].B}
+			if final[id] != want {
+				return &verdict{"C02/increment/lost", fmt.Sprintf("successful increments on id %d add up to %s but the value went from %s to %s", id, sum[id], v0, final[id]),
+					want.String(), final[id].String()}
 			}
 		}
 	}
-	// Aborted / Unavailable only when some other call overlapped
+	// Aborted / Unavailable only when some other call overlapped (or the id generator cannot find a free id:
+	// all ten candidates it draws are taken only in scenarios that start with ten records)
 	for i, h := range hist {
-		if !lostRace(h.Res) {
+		if !lostRace(h.Res) || (h.Op.Gen && len(init) >= 10) {
 			continue
 		}
 		overlap := false
@@ -214,7 +293,8 @@ func judge(sc Scenario, hist []HOp, final map[int]int64) *verdict {
 		for _, h := range hist {
 			hs = append(hs, fmt.Sprintf("T%d.%d %s [%d,%d] -> %s", h.T, h.N, h.Op.encode(), h.Inv, h.Resp, h.Res))
 		}
-		return &verdict{"C02/linearizability/no-sequential-order", "no one-at-a-time order consistent with real time explains the results and the final contents",
+		sig := "C02/linearizability/no-sequential-order"
+		return &verdict{sig, "no one-at-a-time order consistent with real time explains the results and the final contents",
 			"some sequential order of the calls on the map specification", strings.Join(hs, "; ") + " ; final " + showContents(final)}
 	}
 	return nil
@@ -223,22 +303,56 @@ func judge(sc Scenario, hist []HOp, final map[int]int64) *verdict {
 // ---------------------------------------------------------------------------------------------
 // scenario generation
 
+func pp(a, b int64) *P    { return &P{a, b} }
 func pi64(v int64) *int64 { return &v }
 
-func genOp(rng *rand.Rand, ids []int, withValue bool) Op {
-	val := func() int64 { return int64(rng.Intn(4)) }
+func genVal(rng *rand.Rand) P {
+	// few distinct values, so that expectations are met and ABA on values happens
+	return P{int64(rng.Intn(3)), int64(rng.Intn(2))}
+}
+
+// options shared by every scenario of one kind: which option combinations its calls use
+type flavour struct {
+	masks  bool   // update masks on writes
+	wt     string // "" none | "same": every write carries one write time | "mixed"
+	sameWT int64
+}
+
+func genOp(rng *rand.Rand, ids []int, withValue bool, fl flavour) Op {
 	f := func() string {
-		if rng.Intn(2) == 0 {
-			return "s" + strconv.FormatInt(val(), 10)
+		switch rng.Intn(4) {
+		case 0, 1:
+			return "s" + genVal(rng).String()
+		case 2:
+			return "a" + strconv.Itoa(1+rng.Intn(2))
 		}
-		return "a" + strconv.Itoa(1+rng.Intn(2))
+		return "b" + strconv.Itoa(1+rng.Intn(2))
+	}
+	opts := func(o *Op) {
+		if fl.masks && rng.Intn(3) > 0 {
+			o.Mask = []string{"a", "b", "ab"}[rng.Intn(3)]
+			if o.F[0] == 'a' || o.F[0] == 'b' { // an interceptor adding to a field the mask drops would be a no-op
+				if rng.Intn(4) > 0 {
+					o.Mask = string(o.F[0])
+				}
+			}
+		}
+		switch fl.wt {
+		case "same":
+			o.WT = pi64(fl.sameWT)
+		case "mixed":
+			if rng.Intn(2) == 0 {
+				o.WT = pi64(int64(5 + rng.Intn(2)))
+			}
+		}
 	}
 	pre := func(o *Op) {
 		switch rng.Intn(6) {
 		case 0, 1:
-			o.Expect = pi64(val())
+			v := genVal(rng)
+			o.Expect = &v
 		case 2:
-			o.Check = []string{"eq", "ne"}[rng.Intn(2)] + strconv.FormatInt(val(), 10)
+			o.Check = []string{"eq", "ne"}[rng.Intn(2)] + strconv.Itoa(rng.Intn(3))
 		}
 	}
 	id := ids[rng.Intn(len(ids))]
@@ -246,20 +360,25 @@ func genOp(rng *rand.Rand, ids []int, withValue bool) Op {
 	if withValue && k < 3 {
 		o := Op{K: "v", ID: valueID, F: f()}
 		pre(&o)
+		opts(&o)
 		return o
 	}
 	switch {
 	case k < 5: // Add
-		return Op{K: "u", ID: id, EA: true, CIA: true, F: "s" + strconv.FormatInt(val(), 10)}
+		o := Op{K: "u", ID: id, EA: true, CIA: true, F: "s" + genVal(rng).String()}
+		opts(&o)
+		return o
 	case k < 7: // upsert
 		o := Op{K: "u", ID: id, CIA: true, F: f()}
 		if rng.Intn(3) == 0 {
 			pre(&o)
 		}
+		opts(&o)
 		return o
 	case k < 9: // update existing
 		o := Op{K: "u", ID: id, F: f()}
 		pre(&o)
+		opts(&o)
 		return o
 	default:
 		o := Op{K: "d", ID: id, AM: rng.Intn(3) == 0}
@@ -268,8 +387,20 @@ func genOp(rng *rand.Rand, ids []int, withValue bool) Op {
 	}
 }
 
+func genFlavour(rng *rand.Rand) flavour {
+	fl := flavour{masks: rng.Intn(2) == 0}
+	switch rng.Intn(4) {
+	case 0:
+		fl.wt, fl.sameWT = "same", int64(rng.Intn(2)*5) // 0 = the instant the constructor stamped
+	case 1:
+		fl.wt = "mixed"
+	}
+	return fl
+}
+
 func genScenario(rng *rand.Rand, maxThreads, maxOps int) Scenario {
-	sc := Scenario{Init: map[string]int64{}}
+	sc := Scenario{Init: map[string]P{}, Clock: []string{"t", "t", "f", "f", "c"}[rng.Intn(5)]}
+	fl := genFlavour(rng)
 	ids := []int{0}
 	if rng.Intn(3) == 0 {
 		ids = append(ids, 1)
@@ -277,78 +408,298 @@ func genScenario(rng *rand.Rand, maxThreads, maxOps int) Scenario {
 	withValue := rng.Intn(3) == 0
 	for _, id := range ids {
 		if rng.Intn(2) == 0 {
-			sc.Init[strconv.Itoa(id)] = int64(rng.Intn(4))
+			sc.Init[strconv.Itoa(id)] = genVal(rng)
 		}
 	}
 	if withValue && rng.Intn(3) > 0 {
-		sc.Init[strconv.Itoa(valueID)] = int64(rng.Intn(4))
+		sc.Init[strconv.Itoa(valueID)] = genVal(rng)
 	}
 	nt := 2 + rng.Intn(maxThreads-1)
-	// a third of the scenarios are Delete-heavy or increment-only so that the rarer paths are visited
-	mode := rng.Intn(6)
+	// some scenarios are Delete-heavy, increment-only, CAS-only or generate their ids, so that the rarer paths are visited
+	mode := rng.Intn(9)
+	if mode == 3 { // generated ids: a short candidate script makes callers draw the same id; some candidates are taken
+		sc.Cands = [][]int{{0}, {0, 1}, {0, 0, 1}, {1, 0}, {}}[rng.Intn(5)]
+		if rng.Intn(2) == 0 {
+			sc.Init[strconv.Itoa(genBase)] = genVal(rng)
+		}
+	}
+	snap := genVal(rng)
+	if mode == 2 || mode == 4 {
+		sc.Init[strconv.Itoa(ids[0])] = snap
+		sc.Init[strconv.Itoa(valueID)] = snap
+	}
 	for t := 0; t < nt; t++ {
 		var prog []Op
 		no := 1 + rng.Intn(maxOps)
 		for i := 0; i < no; i++ {
 			switch {
-			case mode == 0:
-				prog = append(prog, Op{K: "u", ID: ids[0], F: "a" + strconv.Itoa(1+rng.Intn(3))})
+			case mode == 0: // increments of one record
+				o := Op{K: "u", ID: ids[0], F: []string{"a", "a", "b"}[rng.Intn(3)] + strconv.Itoa(1+rng.Intn(3))}
+				if fl.masks && rng.Intn(2) == 0 {
+					o.Mask = string(o.F[0])
+				}
+				if fl.wt == "same" {
+					o.WT = pi64(fl.sameWT)
+				}
+				prog = append(prog, o)
 			case mode == 1 && rng.Intn(2) == 0:
 				o := Op{K: "d", ID: ids[0], AM: rng.Intn(3) == 0}
 				if rng.Intn(2) == 0 {
-					o.Expect = pi64(int64(rng.Intn(4)))
+					v := genVal(rng)
+					o.Expect = &v
+				}
+				prog = append(prog, o)
+			case mode == 2 || mode == 4: // compare-and-set from one snapshot, each writer through its own mask
+				o := Op{K: "u", ID: ids[0], F: "s" + genVal(rng).String(), Mask: []string{"", "a", "b", "ab"}[rng.Intn(4)]}
+				if mode == 4 {
+					o = Op{K: "v", ID: valueID, F: o.F, Mask: o.Mask}
+				}
+				e := snap
+				if rng.Intn(4) == 0 {
+					e = genVal(rng)
+				}
+				o.Expect = &e
+				if fl.wt == "same" {
+					o.WT = pi64(fl.sameWT)
+				}
+				prog = append(prog, o)
+			case mode == 3 && rng.Intn(3) > 0:
+				prog = append(prog, Op{K: "u", Gen: true, EA: true, CIA: true, F: "s" + genVal(rng).String()})
+			case mode == 3:
+				prog = append(prog, Op{K: "d", ID: genBase + 10*rng.Intn(2), AM: rng.Intn(2) == 0})
+			case mode == 5: // increments of the Value
+				o := Op{K: "v", ID: valueID, F: []string{"a", "a", "b"}[rng.Intn(3)] + strconv.Itoa(1+rng.Intn(3))}
+				if fl.masks && rng.Intn(2) == 0 {
+					o.Mask = string(o.F[0])
+				}
+				if fl.wt == "same" {
+					o.WT = pi64(fl.sameWT)
 				}
 				prog = append(prog, o)
 			default:
-				prog = append(prog, genOp(rng, ids, withValue))
+				prog = append(prog, genOp(rng, ids, withValue, fl))
 			}
 		}
 		sc.Progs = append(sc.Progs, prog)
 	}
 	if mode == 0 {
-		sc.Init[strconv.Itoa(ids[0])] = int64(rng.Intn(4))
+		sc.Init[strconv.Itoa(ids[0])] = genVal(rng)
 	}
+	if mode == 5 && rng.Intn(4) > 0 {
+		sc.Init[strconv.Itoa(valueID)] = genVal(rng)
+	}
+	return sc
+}
+
+// genNested: one call whose callback makes 1-5 complete rival calls on the same record / Value; frozen clock
+// (the stamp never moves), no hooks, no goroutines.
+func genNested(rng *rand.Rand) Scenario {
+	sc := Scenario{Init: map[string]P{}, Clock: "f", Nested: true}
+	fl := genFlavour(rng)
+	ids := []int{0}
+	onValue := rng.Intn(3) == 0
+	if rng.Intn(4) > 0 {
+		sc.Init["0"] = genVal(rng)
+	}
+	if onValue && rng.Intn(4) > 0 {
+		sc.Init[strconv.Itoa(valueID)] = genVal(rng)
+	}
+	var outer Op
+	for {
+		outer = genOp(rng, ids, onValue, fl)
+		if (outer.K == "v") == onValue {
+			break
+		}
+	}
+	if !onValue && rng.Intn(3) == 0 { // a guarded Delete: the guard refers to the version stored at the start
+		v0 := sc.Init["0"]
+		outer = Op{K: "d", ID: 0, AM: rng.Intn(4) == 0}
+		switch rng.Intn(3) {
+		case 0:
+			outer.Check = "eq" + strconv.FormatInt(v0.A, 10)
+		case 1:
+			outer.Check = "ne" + strconv.FormatInt(v0.A+1, 10)
+		default:
+			outer.Expect = &v0
+		}
+	}
+	nr := 1
+	if outer.K == "d" {
+		nr = 1 + rng.Intn(5)
+	}
+	for i := 0; i < nr; i++ {
+		var rv Op
+		for {
+			rv = genOp(rng, ids, onValue, fl)
+			if (rv.K == "v") == onValue {
+				break
+			}
+		}
+		outer.Rivals = append(outer.Rivals, rv)
+	}
+	outer.RivalAt = []string{"c", "b"}[rng.Intn(2)]
+	sc.Progs = [][]Op{{outer}}
 	return sc
 }
 
 // witnesses: small scenarios that exercise each race window; all their schedules are enumerated
 func witnessScenarios() []Scenario {
-	add := func(v int64) Op { return Op{K: "u", ID: 0, EA: true, CIA: true, F: "s" + strconv.FormatInt(v, 10)} }
+	set := func(a, b int64) string { return "s" + P{a, b}.String() }
+	add := func(v int64) Op { return Op{K: "u", ID: 0, EA: true, CIA: true, F: set(v, 0)} }
+	gadd := func(v int64) Op { return Op{K: "u", Gen: true, EA: true, CIA: true, F: set(v, 0)} }
 	inc := func(k int) Op { return Op{K: "u", ID: 0, F: "a" + strconv.Itoa(k)} }
 	upinc := func(k int) Op { return Op{K: "u", ID: 0, CIA: true, F: "a" + strconv.Itoa(k)} }
-	cas := func(e, v int64) Op { return Op{K: "u", ID: 0, Expect: pi64(e), F: "s" + strconv.FormatInt(v, 10)} }
-	vcas := func(e, v int64) Op { return Op{K: "v", ID: valueID, Expect: pi64(e), F: "s" + strconv.FormatInt(v, 10)} }
+	cas := func(e, v int64) Op { return Op{K: "u", ID: 0, Expect: pp(e, 0), F: set(v, 0)} }
+	vcas := func(e, v int64) Op { return Op{K: "v", ID: valueID, Expect: pp(e, 0), F: set(v, 0)} }
 	vinc := func(k int) Op { return Op{K: "v", ID: valueID, F: "a" + strconv.Itoa(k)} }
 	del := func() Op { return Op{K: "d", ID: 0} }
-	delx := func(e int64) Op { return Op{K: "d", ID: 0, Expect: pi64(e)} }
+	delx := func(e int64) Op { return Op{K: "d", ID: 0, Expect: pp(e, 0)} }
+	at := func(o Op, t int64) Op { o.WT = pi64(t); return o }
+	masked := func(o Op, m string) Op { o.Mask = m; return o }
+	one := func(v int64) map[string]P { return map[string]P{"0": {v, 0}} }
 	return []Scenario{
-		{Init: map[string]int64{}, Progs: [][]Op{{add(1)}, {add(2)}}},                                // the defect fixed by 41c35d0
-		{Init: map[string]int64{}, Progs: [][]Op{{upinc(1)}, {upinc(2)}}},                            // create-if-absent increments
-		{Init: map[string]int64{}, Progs: [][]Op{{add(0)}, {upinc(2)}}},                              // created value equal to the empty message
-		{Init: map[string]int64{"0": 1}, Progs: [][]Op{{inc(1)}, {inc(2)}}},                          // lost update
-		{Init: map[string]int64{"0": 1}, Progs: [][]Op{{cas(1, 2)}, {cas(1, 3)}}},                    // CAS vs CAS
-		{Init: map[string]int64{"0": 1}, Progs: [][]Op{{cas(1, 2), cas(2, 1)}, {cas(1, 3)}}},         // ABA on values
-		{Init: map[string]int64{"0": 1}, Progs: [][]Op{{delx(1)}, {cas(1, 2), cas(2, 1)}}},           // Delete vs ABA: pointer comparison
-		{Init: map[string]int64{"0": 1}, Progs: [][]Op{{del()}, {inc(1)}}},                           // Delete retry
-		{Init: map[string]int64{"0": 0}, Progs: [][]Op{{del()}, {upinc(1)}}},                         // delete, then re-create on the re-validation read
-		{Init: map[string]int64{"9": 1}, Progs: [][]Op{{vcas(1, 2)}, {vinc(1)}}},                     // Value
-		{Init: map[string]int64{}, Progs: [][]Op{{vinc(1)}, {vinc(2)}}},                              // Value starting nil
-		{Init: map[string]int64{"0": 1}, Progs: [][]Op{{del()}, {add(5)}, {Op{K: "d", ID: 0, AM: true}}}}, // three threads
+		{Init: map[string]P{}, Progs: [][]Op{{add(1)}, {add(2)}}},                       // the defect fixed by 41c35d0
+		{Init: map[string]P{}, Progs: [][]Op{{upinc(1)}, {upinc(2)}}},                   // create-if-absent increments
+		{Init: map[string]P{}, Progs: [][]Op{{add(0)}, {upinc(2)}}},                     // created value equal to the empty message
+		{Init: one(1), Progs: [][]Op{{inc(1)}, {inc(2)}}},                               // lost update
+		{Init: one(1), Progs: [][]Op{{cas(1, 2)}, {cas(1, 3)}}},                         // CAS vs CAS
+		{Init: one(1), Progs: [][]Op{{cas(1, 2), cas(2, 1)}, {cas(1, 3)}}},              // ABA on values
+		{Init: one(1), Progs: [][]Op{{delx(1)}, {cas(1, 2), cas(2, 1)}}},                // Delete vs ABA: pointer comparison
+		{Init: one(1), Progs: [][]Op{{del()}, {inc(1)}}},                                // Delete retry
+		{Init: one(0), Progs: [][]Op{{del()}, {upinc(1)}}},                              // delete, then re-create on the re-validation read
+		{Init: map[string]P{"9": {1, 0}}, Progs: [][]Op{{vcas(1, 2)}, {vinc(1)}}},       // Value
+		{Init: map[string]P{}, Progs: [][]Op{{vinc(1)}, {vinc(2)}}},                     // Value starting nil
+		{Init: one(1), Progs: [][]Op{{del()}, {add(5)}, {Op{K: "d", ID: 0, AM: true}}}}, // three threads
+		// expected value x update mask: two writers holding one snapshot, each writing its own field
+		{Init: map[string]P{"0": {1, 1}}, Progs: [][]Op{
+			{Op{K: "u", ID: 0, Expect: pp(1, 1), F: set(2, 0), Mask: "a"}}, {Op{K: "u", ID: 0, Expect: pp(1, 1), F: set(0, 3), Mask: "b"}}}},
+		{Init: map[string]P{"9": {1, 1}}, Progs: [][]Op{
+			{Op{K: "v", ID: valueID, Expect: pp(1, 1), F: set(2, 0), Mask: "a"}}, {Op{K: "v", ID: valueID, Expect: pp(1, 1), F: "b2", Mask: "b"}}}},
+		// masked increments of different fields of one record: neither may be lost
+		{Init: map[string]P{"0": {1, 1}}, Progs: [][]Op{{masked(inc(1), "a")}, {masked(Op{K: "u", ID: 0, F: "b2"}, "b")}}},
+		// clocks that do not tell writes apart, equal write times: the stamp is not a version
+		{Init: map[string]P{"9": {1, 0}}, Clock: "f", Progs: [][]Op{{vinc(1)}, {vinc(2)}}},
+		{Init: map[string]P{"9": {1, 0}}, Clock: "c", Progs: [][]Op{{vinc(1)}, {vcas(1, 5)}}},
+		{Init: map[string]P{"9": {1, 0}}, Progs: [][]Op{{at(vinc(1), 0)}, {at(vinc(2), 0)}}},
+		{Init: map[string]P{}, Progs: [][]Op{{at(vinc(1), 7), at(vinc(1), 7)}, {at(vinc(2), 7)}}},
+		{Init: one(1), Clock: "f", Progs: [][]Op{{inc(1)}, {inc(2)}}},
+		{Init: one(1), Progs: [][]Op{{at(cas(1, 2), 5)}, {at(cas(1, 3), 5)}}},
+		// generated ids: both callers draw the same candidate; a candidate that is taken; a freed id
+		{Init: map[string]P{}, Cands: []int{0}, Progs: [][]Op{{gadd(1)}, {gadd(2)}}},
+		{Init: map[string]P{"100": {5, 0}}, Cands: []int{0, 1}, Progs: [][]Op{{gadd(1)}, {gadd(2)}}},
+		{Init: map[string]P{"100": {5, 0}}, Cands: []int{0, 0, 1}, Progs: [][]Op{{gadd(1)}, {Op{K: "d", ID: genBase}}}},
+		{Init: map[string]P{}, Cands: []int{0}, Progs: [][]Op{{gadd(1), Op{K: "d", ID: genBase}}, {gadd(2)}}},
 	}
 }
 
-func thoroughScenarios() []Scenario {
+// nestedWitnesses: the same windows reached without hooks (a rival call made from the call's own callback)
+func nestedWitnesses() []Scenario {
+	set := func(a, b int64) string { return "s" + P{a, b}.String() }
 	inc := func(k int) Op { return Op{K: "u", ID: 0, F: "a" + strconv.Itoa(k)} }
-	add := func(v int64) Op { return Op{K: "u", ID: 0, EA: true, CIA: true, F: "s" + strconv.FormatInt(v, 10)} }
-	del := func() Op { return Op{K: "d", ID: 0} }
-	cas := func(e, v int64) Op { return Op{K: "u", ID: 0, Expect: pi64(e), F: "s" + strconv.FormatInt(v, 10)} }
+	vinc := func(k int) Op { return Op{K: "v", ID: valueID, F: "a" + strconv.Itoa(k)} }
+	del := Op{K: "d", ID: 0}
+	with := func(o Op, at string, rv ...Op) Op { o.Rivals, o.RivalAt = rv, at; return o }
+	one := map[string]P{"0": {1, 0}}
+	val := map[string]P{"9": {1, 0}}
+	mk := func(init map[string]P, o Op) Scenario {
+		return Scenario{Init: init, Clock: "f", Nested: true, Progs: [][]Op{{o}}}
+	}
+	var ten = map[string]P{}
+	for i := 0; i < 10; i++ {
+		ten[strconv.Itoa(genBase+i)] = P{int64(i), 0}
+	}
 	return []Scenario{
-		{Init: map[string]int64{}, Progs: [][]Op{{add(1)}, {add(2)}, {add(3)}}},
-		{Init: map[string]int64{"0": 0}, Progs: [][]Op{{inc(1)}, {inc(2)}, {inc(3)}}},
-		{Init: map[string]int64{"0": 1}, Progs: [][]Op{{del(), add(4)}, {inc(1), inc(1)}}},
-		{Init: map[string]int64{}, Progs: [][]Op{{add(1), del()}, {add(2), del()}}},
-		{Init: map[string]int64{"0": 1}, Progs: [][]Op{{cas(1, 2), cas(2, 1)}, {cas(1, 3), del()}}},
-		{Init: map[string]int64{"0": 1}, Progs: [][]Op{{del()}, {inc(1)}, {inc(2)}}},
+		mk(one, with(inc(1), "b", inc(2))),
+		mk(one, with(inc(1), "c", inc(2))),
+		mk(val, with(vinc(1), "b", vinc(2))),
+		mk(val, with(vinc(1), "c", vinc(2))),
+		mk(map[string]P{}, with(vinc(1), "b", vinc(2))),
+		mk(val, with(Op{K: "v", ID: valueID, Expect: pp(1, 0), F: set(2, 0)}, "b", Op{K: "v", ID: valueID, Expect: pp(1, 0), F: set(3, 0)})),
+		mk(one, with(Op{K: "u", ID: 0, Expect: pp(1, 0), F: set(2, 0), Mask: "a"}, "b", Op{K: "u", ID: 0, Expect: pp(1, 0), F: set(0, 3), Mask: "b"})),
+		mk(map[string]P{}, with(Op{K: "u", ID: 0, EA: true, CIA: true, F: set(1, 0)}, "b", Op{K: "u", ID: 0, EA: true, CIA: true, F: set(2, 0)})),
+		// guarded Deletes whose guard is evaluated on the version read, while a rival replaces that version
+		mk(one, with(Op{K: "d", ID: 0, Check: "eq1"}, "c", inc(1))),
+		mk(one, with(Op{K: "d", ID: 0, Check: "eq1"}, "c", Op{K: "u", ID: 0, F: "b1", Mask: "b"})),
+		mk(one, with(Op{K: "d", ID: 0, Expect: pp(1, 0)}, "c", inc(1))),
+		mk(one, with(Op{K: "d", ID: 0, Check: "ne2"}, "c", inc(1), inc(1))),
+		mk(one, with(Op{K: "d", ID: 0, Check: "eq1"}, "c", del, Op{K: "u", ID: 0, EA: true, CIA: true, F: set(1, 0)})),
+		mk(one, with(del, "c", del)),
+		mk(one, with(Op{K: "d", ID: 0, AM: true}, "c", del)),
+		mk(one, with(del, "c", inc(1))),
+		mk(one, with(del, "c", inc(1), inc(1), inc(1), inc(1))),
+		mk(one, with(del, "c", inc(1), inc(1), inc(1), inc(1), inc(1))), // five invalidated attempts: Unavailable
+		mk(one, with(del, "c", del, Op{K: "u", ID: 0, EA: true, CIA: true, F: set(7, 0)})),
+		mk(one, with(inc(1), "b", del)),
+		mk(one, with(inc(1), "b", del, inc(1))),
+		// an id generator whose ten candidates are all taken gives up with Aborted
+		{Init: ten, Clock: "f", Nested: true, Cands: []int{0}, Progs: [][]Op{{Op{K: "u", Gen: true, EA: true, CIA: true, F: set(1, 0)}}}},
+	}
+}
+
+// pairScenarios: every unordered pair of calls from a small alphabet of option combinations, on a record that
+// is absent (ticking clock) or present (frozen clock), and likewise on the Value; every schedule of each pair
+// is enumerated (thorough: all pairs, quick: a sample).
+func pairScenarios() []Scenario {
+	coll := []Op{
+		{K: "u", ID: 0, EA: true, CIA: true, F: "s2.0"},
+		{K: "u", ID: 0, CIA: true, F: "a1"},
+		{K: "u", ID: 0, F: "a1"},
+		{K: "u", ID: 0, F: "b1", Mask: "b"},
+		{K: "u", ID: 0, Expect: pp(1, 1), F: "s2.1"},
+		{K: "u", ID: 0, Expect: pp(1, 1), F: "s2.0", Mask: "a"},
+		{K: "u", ID: 0, Expect: pp(1, 1), F: "s0.3", Mask: "b"},
+		{K: "u", ID: 0, Check: "eq1", F: "s3.1", WT: pi64(0)},
+		{K: "d", ID: 0},
+		{K: "d", ID: 0, Expect: pp(1, 1)},
+		{K: "d", ID: 0, AM: true, Check: "eq1"},
+		{K: "u", Gen: true, EA: true, CIA: true, F: "s5.0"},
+		{K: "d", ID: genBase, AM: true},
+	}
+	val := []Op{
+		{K: "v", ID: valueID, F: "a1"},
+		{K: "v", ID: valueID, F: "b1", Mask: "b"},
+		{K: "v", ID: valueID, Expect: pp(1, 1), F: "s2.1"},
+		{K: "v", ID: valueID, Expect: pp(1, 1), F: "s2.0", Mask: "a"},
+		{K: "v", ID: valueID, Expect: pp(1, 1), F: "s0.3", Mask: "b"},
+		{K: "v", ID: valueID, Check: "ne2", F: "s3.1", WT: pi64(0)},
+	}
+	var out []Scenario
+	for i := range coll {
+		for j := i; j < len(coll); j++ {
+			out = append(out,
+				Scenario{Init: map[string]P{}, Clock: "t", Cands: []int{0}, Progs: [][]Op{{coll[i]}, {coll[j]}}},
+				Scenario{Init: map[string]P{"0": {1, 1}}, Clock: "f", Cands: []int{0}, Progs: [][]Op{{coll[i]}, {coll[j]}}})
+		}
+	}
+	for i := range val {
+		for j := i; j < len(val); j++ {
+			out = append(out,
+				Scenario{Init: map[string]P{}, Clock: "f", Progs: [][]Op{{val[i]}, {val[j]}}},
+				Scenario{Init: map[string]P{"9": {1, 1}}, Clock: "f", Progs: [][]Op{{val[i]}, {val[j]}}})
+		}
+	}
+	return out
+}
+
+func thoroughScenarios() []Scenario {
+	set := func(a, b int64) string { return "s" + P{a, b}.String() }
+	inc := func(k int) Op { return Op{K: "u", ID: 0, F: "a" + strconv.Itoa(k)} }
+	add := func(v int64) Op { return Op{K: "u", ID: 0, EA: true, CIA: true, F: set(v, 0)} }
+	gadd := func(v int64) Op { return Op{K: "u", Gen: true, EA: true, CIA: true, F: set(v, 0)} }
+	del := func() Op { return Op{K: "d", ID: 0} }
+	cas := func(e, v int64) Op { return Op{K: "u", ID: 0, Expect: pp(e, 0), F: set(v, 0)} }
+	vinc := func(k int) Op { return Op{K: "v", ID: valueID, F: "a" + strconv.Itoa(k)} }
+	one := func(v int64) map[string]P { return map[string]P{"0": {v, 0}} }
+	return []Scenario{
+		{Init: map[string]P{}, Progs: [][]Op{{add(1)}, {add(2)}, {add(3)}}},
+		{Init: one(0), Progs: [][]Op{{inc(1)}, {inc(2)}, {inc(3)}}},
+		{Init: one(1), Progs: [][]Op{{del(), add(4)}, {inc(1), inc(1)}}},
+		{Init: map[string]P{}, Progs: [][]Op{{add(1), del()}, {add(2), del()}}},
+		{Init: one(1), Progs: [][]Op{{cas(1, 2), cas(2, 1)}, {cas(1, 3), del()}}},
+		{Init: one(1), Progs: [][]Op{{del()}, {inc(1)}, {inc(2)}}},
+		{Init: map[string]P{"9": {0, 0}}, Clock: "f", Progs: [][]Op{{vinc(1)}, {vinc(2)}, {vinc(3)}}},
+		{Init: map[string]P{}, Cands: []int{0, 1}, Progs: [][]Op{{gadd(1)}, {gadd(2)}, {gadd(3)}}},
+		{Init: map[string]P{}, Cands: []int{0}, Progs: [][]Op{{gadd(1), Op{K: "d", ID: genBase}}, {gadd(2), Op{K: "d", ID: genBase, AM: true}}}},
 	}
 }
 
@@ -370,9 +721,11 @@ func main() {
 	ctl := k4.New(parkPoints...)
 
 	tie := res.Tie("k4-schedules", "K4",
-		"each case = one scenario (2-3 writers x 1-2 calls from {Add, upsert, Update with expected value/check, delta interceptor, Delete with precondition, Value.Set} on 1-2 ids + a Value) executed on the real code under one schedule forced through the yield points gau.afterRead / gau.beforeLock / coll.delete.afterRead; per-call results and final contents compared with run(model) on the same schedule; non-trivial = at least two calls overlapped; distinct = distinct (scenario, schedule)")
+		"each case = one scenario (2-3 writers x 1-2 calls from {Add, Add with a generated id, upsert, Update with expected value/check, delta interceptor, Delete with precondition, Value.Set}, each with or without an update mask on one of the two message fields and a write time, on 1-2 ids + a Value, under a ticking / frozen / coarse injected clock and a scripted id generator) executed on the real code under one schedule forced through the yield points gau.afterRead / gau.beforeLock / coll.delete.afterRead; per-call results (with generated ids), final contents, the change time stored with every value and the number of rng reads compared with run(model) on the same schedule; non-trivial = at least two calls overlapped; distinct = distinct (scenario, schedule)")
+	ntie := res.Tie("nested-rivals", "K4",
+		"no hooks, no goroutines: each case = one call whose own callback (WithExpectedCheck / InterceptBefore, run by the write path with no lock held) makes 1-5 complete rival calls, i.e. between the call's optimistic read and its write lock; frozen clock; compared with run(model) on the schedule read ▸ rival to completion ▸ next step (one model thread per call that ran); non-trivial = a rival ran; distinct = distinct scenario")
 	mon := res.Monitor("linearizable-hooked",
-		"the property on every hooked execution: independent Go map specification + backtracking linearizability checker (real-time order from step indices), plus add-exclusive, no-lost-increment, no spurious Aborted")
+		"the property on every hooked and every nested execution: independent Go map specification + backtracking linearizability checker (real-time order from step indices), plus add-exclusive (given and generated ids), no-lost-increment per field, no spurious Aborted")
 	var cases []pending
 	record := func(sc Scenario, r *Run) {
 		cases = append(cases, pending{sc, r})
@@ -388,16 +741,34 @@ func main() {
 		}
 	}
 	res.Extra["witness_scenarios_all_schedules"] = exhaustiveCount
+	{
+		pairs := pairScenarios()
+		res.Extra["pair_scenarios_total"] = len(pairs)
+		if !f.Thorough() {
+			rng.Shuffle(len(pairs), func(i, j int) { pairs[i], pairs[j] = pairs[j], pairs[i] })
+			pairs = pairs[:40]
+		}
+		np := 0
+		for _, sc := range pairs {
+			n, complete := exploreAll(ctl, sc, 0, func(r *Run) { record(sc, r) })
+			np += n
+			if !complete {
+				tie.Fail(fmt.Errorf("schedule enumeration incomplete"))
+			}
+		}
+		res.Extra["pair_scenarios_enumerated"] = len(pairs)
+		res.Extra["pair_scenarios_all_schedules"] = np
+	}
 	// a Delete invalidated five times in a row gives up with Unavailable
 	{
 		inc := Op{K: "u", ID: 0, F: "a1"}
-		sc := Scenario{Init: map[string]int64{"0": 0}, Progs: [][]Op{{{K: "d", ID: 0}}, {inc, inc, inc, inc, inc}}}
+		sc := Scenario{Init: map[string]P{"0": {0, 0}}, Progs: [][]Op{{{K: "d", ID: 0}}, {inc, inc, inc, inc, inc}}}
 		sched := []int{0}
 		for i := 0; i < 5; i++ {
 			sched = append(sched, 1, 1, 1, 0)
 		}
 		record(sc, runScheduled(ctl, sc, sched, nil))
-		sc4 := Scenario{Init: map[string]int64{"0": 0}, Progs: [][]Op{{{K: "d", ID: 0}}, {inc, inc, inc, inc}}}
+		sc4 := Scenario{Init: map[string]P{"0": {0, 0}}, Progs: [][]Op{{{K: "d", ID: 0}}, {inc, inc, inc, inc}}}
 		record(sc4, runScheduled(ctl, sc4, sched, nil))
 	}
 	// 2. thorough: every schedule of bigger programs and of random small scenarios
@@ -422,54 +793,114 @@ func main() {
 		record(sc, r)
 	}
 	ctl.Close()
+	hooked := len(cases)
+	// 4. nested rivals (hooks removed)
+	for _, sc := range nestedWitnesses() {
+		record(sc, runNested(sc))
+	}
+	for i, n := 0, f.N(1500, 15000); i < n; i++ {
+		sc := genNested(rng)
+		record(sc, runNested(sc))
+	}
 
 	// model side, in one batch
 	drv, err := lib.StartDriver(f.Driver)
 	if err != nil {
 		tie.Fail(err)
+		ntie.Fail(err)
 	} else {
 		lines := make([]string, len(cases))
 		for i, c := range cases {
-			lines[i] = c.sc.driverLine(true, c.run.Sched)
+			lines[i] = driverLine(c.sc, c.run.Progs, c.run.Sched)
 		}
 		answers, err := drv.Batch(lines)
 		drv.Close()
 		if err != nil {
 			tie.Fail(err)
+			ntie.Fail(err)
 		} else {
 			for i, c := range cases {
-				n := len(c.sc.Progs)
+				n := len(c.run.Progs)
 				model := answers[i]
 				// the model must also say every thread is finished after exactly these steps
 				wantPc := "|pc=" + strings.Repeat("i", n)
-				code := c.run.canon(n) + fmt.Sprintf("|log=%d", countCommits(c.run.Hist)) + wantPc
-				in := map[string]any{"init": c.sc.Init, "progs": c.sc.Progs, "sched": c.run.Sched}
-				tie.Record(lines[i], overlapped(c.run.Hist), in, model, code)
-				for _, h := range c.run.Hist {
-					tie.Count(h.Op.K + ":" + h.Res[:strings.IndexByte(h.Res, ':')+1] + codeOf(h.Res))
+				code := c.run.canon() + fmt.Sprintf("|log=%d", countCommits(c.run.Hist)) + wantPc + fmt.Sprintf("|rng=%d", c.run.RNG)
+				in := c.sc.input(c.run.Sched)
+				tt := tie
+				nontrivial := overlapped(c.run.Hist)
+				if i >= hooked {
+					tt = ntie
+					nontrivial = len(c.run.Progs) > 1
 				}
+				tt.Record(lines[i], nontrivial, in, model, code)
+				for _, h := range c.run.Hist {
+					tt.Count(h.Op.K + ":" + h.Res[:strings.IndexByte(h.Res, ':')+1] + codeOf(h.Res))
+					tt.Count(h.Op.optionClass())
+				}
+				tt.Count("clock:" + c.sc.clock())
 			}
 		}
 	}
 	for _, c := range cases {
 		sc := c.sc
-		sc.Sched = c.run.Sched
-		in := map[string]any{"mode": "k4", "init": sc.Init, "progs": sc.Progs, "sched": c.run.Sched}
-		mon.Eval(sc.driverLine(true, c.run.Sched), overlapped(c.run.Hist), nil)
+		in := sc.input(c.run.Sched)
+		mon.Eval(driverLine(sc, c.run.Progs, c.run.Sched), overlapped(c.run.Hist), nil)
 		for _, h := range c.run.Hist {
 			mon.Count(codeOf(h.Res))
 		}
 		if v := judge(sc, c.run.Hist, c.run.Final); v != nil {
-			mon.Violate(v.sig, v.what, in, v.expected, v.observed)
+			sig := v.sig
+			if sc.Nested {
+				sig += "/nested"
+			}
+			mon.Violate(sig, v.what, in, v.expected, v.observed)
 		}
 	}
 
-	// 4. unhooked stress
+	// 5. unhooked stress
 	stress(f, res, rng)
 
 	if err := res.Write(f.Out); err != nil {
 		lib.Fatal(err)
 	}
+}
+
+// input is the concrete replay of one execution.
+func (sc Scenario) input(sched []int) map[string]any {
+	in := map[string]any{"mode": "k4", "init": sc.Init, "progs": sc.Progs, "sched": sched, "clock": sc.clock()}
+	if len(sc.Cands) > 0 {
+		in["cands"] = sc.Cands
+	}
+	if sc.Nested {
+		in["mode"] = "nested"
+		in["nested"] = true
+		delete(in, "sched")
+	}
+	return in
+}
+
+// optionClass names the option combination of a call (distribution in the evidence)
+func (o Op) optionClass() string {
+	var parts []string
+	if o.Gen {
+		parts = append(parts, "gen-id")
+	}
+	if o.Expect != nil {
+		parts = append(parts, "expected-value")
+	}
+	if o.check() != "n" {
+		parts = append(parts, "expected-check")
+	}
+	if o.Mask != "" {
+		parts = append(parts, "mask")
+	}
+	if o.WT != nil {
+		parts = append(parts, "write-time")
+	}
+	if len(parts) == 0 {
+		return "opts:none"
+	}
+	return "opts:" + strings.Join(parts, "+")
 }
 
 func codeOf(res string) string {
@@ -503,8 +934,8 @@ func overlapped(hist []HOp) bool {
 // ---------------------------------------------------------------------------------------------
 // unhooked stress: real goroutines on all cores, histories stamped with an atomic counter
 
-func stressOnce(sc Scenario) ([]HOp, map[int]int64) {
-	w := newWorld(sc)
+func stressOnce(sc Scenario) ([]HOp, map[int]P) {
+	w := newWorld(sc, true)
 	var clock atomic.Int64
 	var wg sync.WaitGroup
 	start := make(chan struct{})
@@ -517,11 +948,12 @@ func stressOnce(sc Scenario) ([]HOp, map[int]int64) {
 			for n, op := range prog {
 				inv := clock.Add(1)
 				var res string
-				if p, msg := lib.Catch(func() { res = w.exec(op) }); p {
+				gen := -1
+				if p, msg := lib.Catch(func() { res = w.exec(op, &gen) }); p {
 					res = "panic:" + msg
 				}
 				resp := clock.Add(1)
-				hists[t] = append(hists[t], HOp{T: t, N: n, Op: op, Inv: inv, Resp: resp, Res: res})
+				hists[t] = append(hists[t], HOp{T: t, N: n, Op: op, Inv: inv, Resp: resp, Res: res, GenID: gen})
 			}
 		}(t, prog)
 	}
@@ -532,7 +964,8 @@ func stressOnce(sc Scenario) ([]HOp, map[int]int64) {
 		hist = append(hist, h...)
 	}
 	sort.Slice(hist, func(i, j int) bool { return hist[i].Inv < hist[j].Inv })
-	return hist, w.contents()
+	final, _ := w.contents()
+	return hist, final
 }
 
 func stress(f lib.Flags, res *lib.Result, rng *rand.Rand) {
@@ -616,7 +1049,9 @@ func stress(f lib.Flags, res *lib.Result, rng *rand.Rand) {
 				continue
 			}
 			searched[fd.v.sig] = true
-			in := map[string]any{"mode": "stress", "init": fd.sc.Init, "progs": fd.sc.Progs}
+			in := fd.sc.input(nil)
+			in["mode"] = "stress"
+			delete(in, "sched")
 			// look for a deterministic schedule showing the same failure
 			exploreAll(ctl, fd.sc, 4000, func(r *Run) {
 				if _, has := in["sched"]; has {
@@ -650,7 +1085,23 @@ func replay(f lib.Flags) int {
 	}
 	sc := in.Scenario
 	if sc.Init == nil {
-		sc.Init = map[string]int64{}
+		sc.Init = map[string]P{}
+	}
+	if in.Mode == "nested" || sc.Nested {
+		sc.Nested = true
+		r := runNested(sc)
+		fmt.Printf("replay nested -> %s\n", r.canon())
+		if f.Driver != "" {
+			if ans, err := lib.RunOnce(f.Driver, []string{driverLine(sc, r.Progs, r.Sched)}); err == nil {
+				fmt.Println("model:", ans[0])
+			}
+		}
+		if v := judge(sc, r.Hist, r.Final); v != nil {
+			fmt.Printf("STILL FAILS %s/nested: %s (expected %s, observed %s)\n", v.sig, v.what, v.expected, v.observed)
+			return 1
+		}
+		fmt.Println("replay: property holds on this input now")
+		return 0
 	}
 	if in.Mode == "stress" || len(sc.Sched) == 0 {
 		for i := 0; i < 20000; i++ {
@@ -666,9 +1117,9 @@ func replay(f lib.Flags) int {
 	ctl := k4.New(parkPoints...)
 	defer ctl.Close()
 	r := runScheduled(ctl, sc, sc.Sched, nil)
-	fmt.Printf("replay schedule %v -> %s\n", r.Sched, r.canon(len(sc.Progs)))
+	fmt.Printf("replay schedule %v -> %s\n", r.Sched, r.canon())
 	if f.Driver != "" {
-		if ans, err := lib.RunOnce(f.Driver, []string{sc.driverLine(true, r.Sched)}); err == nil {
+		if ans, err := lib.RunOnce(f.Driver, []string{driverLine(sc, r.Progs, r.Sched)}); err == nil {
 			fmt.Println("model:", ans[0])
 		}
 	}
